@@ -519,14 +519,20 @@ class HostConnection(object):
         conn = None
         try:
             conn = self._session.cluster.connection_factory(self.host.endpoint, on_orphaned_stream_released=self.on_orphaned_stream_released)
-            if self._keyspace:
-                conn.set_keyspace_blocking(self._keyspace)
-            with self._lock:
-                if self.is_shutdown:
-                    # the pool was shut down while we were connecting
-                    conn.close()
-                    return
-                self._connection = conn
+            # a USE may arrive while this connection is being prepared: it is published
+            # only once the keyspace selected on it is still the pool's
+            selected = None
+            while True:
+                with self._lock:
+                    if self.is_shutdown:
+                        # the pool was shut down while we were connecting
+                        conn.close()
+                        return
+                    if self._keyspace == selected:
+                        self._connection = conn
+                        break
+                    selected = self._keyspace
+                conn.set_keyspace_blocking(selected)
         except Exception:
             log.warning("Failed reconnecting %s. Retrying." % (self.host.endpoint,))
             if conn:
@@ -567,8 +573,11 @@ class HostConnection(object):
                 conn.close()
 
     def _set_keyspace_for_all_conns(self, keyspace, callback):
-        self._keyspace = keyspace
-        if self.is_shutdown or not self._connection:
+        # under the lock: a replacement connection is published under it only if it has this keyspace
+        with self._lock:
+            self._keyspace = keyspace
+            connection = self._connection
+        if self.is_shutdown or not connection:
             callback(self, [])
             return
 
@@ -577,7 +586,7 @@ class HostConnection(object):
             errors = [] if not error else [error]
             callback(self, errors)
 
-        self._connection.set_keyspace_async(keyspace, connection_finished_setting_keyspace)
+        connection.set_keyspace_async(keyspace, connection_finished_setting_keyspace)
 
     def get_connections(self):
         c = self._connection
@@ -737,17 +746,23 @@ class HostConnectionPool(object):
         conn = None
         try:
             conn = self._session.cluster.connection_factory(self.host.endpoint, on_orphaned_stream_released=self.on_orphaned_stream_released)
-            if self._keyspace:
-                conn.set_keyspace_blocking(self._session.keyspace)
             self._next_trash_allowed_at = time.time() + _MIN_TRASH_INTERVAL
-            with self._lock:
-                if self.is_shutdown:
-                    # the pool was shut down while we were connecting
-                    self.open_count -= 1
-                    conn.close()
-                    return True
-                new_connections = self._connections[:] + [conn]
-                self._connections = new_connections
+            # a USE may arrive while this connection is being prepared: it is published
+            # only once the keyspace selected on it is still the pool's
+            selected = None
+            while True:
+                with self._lock:
+                    if self.is_shutdown:
+                        # the pool was shut down while we were connecting
+                        self.open_count -= 1
+                        conn.close()
+                        return True
+                    if self._keyspace == selected:
+                        new_connections = self._connections[:] + [conn]
+                        self._connections = new_connections
+                        break
+                    selected = self._keyspace
+                conn.set_keyspace_blocking(selected)
             log.debug("Added new connection (%s) to pool for host %s, signaling availability",
                       id(conn), self.host)
             self._signal_available_conn()
@@ -940,8 +955,11 @@ class HostConnectionPool(object):
         connections have been set, `callback` will be called with two
         arguments: this pool, and a list of any errors that occurred.
         """
-        self._keyspace = keyspace
-        remaining_callbacks = set(self._connections)
+        # under the lock: an additional connection is published under it only if it has this keyspace
+        with self._lock:
+            self._keyspace = keyspace
+            connections = self._connections
+        remaining_callbacks = set(connections)
         errors = []
 
         if not remaining_callbacks:
@@ -957,7 +975,7 @@ class HostConnectionPool(object):
             if not remaining_callbacks:
                 callback(self, errors)
 
-        for conn in self._connections:
+        for conn in connections:
             conn.set_keyspace_async(keyspace, connection_finished_setting_keyspace)
 
     def get_connections(self):
